@@ -237,8 +237,21 @@ let oracle_expected s =
 let show_class_err r = match r with
   | Res.Ok _ -> "ok" | Res.Err e -> "err " ^ Errnames.name e | Res.Panic -> "panic" | Res.OutOfFuel -> "outoffuel"
 
+(* Every shard process regenerates the whole stream and the driver keeps every nshards-th case: evaluate the
+   model (and print the case) only for the cases of this shard; the others are emitted empty and dropped by the
+   driver. The counter advances exactly like the driver's. *)
+let shard, nshards =
+  match Array.to_list Sys.argv with
+  | _ :: "gen" :: _ :: _ :: _ :: a :: b :: _ -> (try (int_of_string a, int_of_string b) with _ -> (0, 1))
+  | _ -> (0, 1)
+let ctr = ref 0
+let both_s (emit : emit) (case : unit -> string) (f : bool -> string) =
+  let mine = !ctr mod nshards = shard in
+  incr ctr;
+  if mine then both emit (case ()) f else emit "" "" ""
+
 let oracle_case emit name s =
-  both emit (tok_script name s) (fun dbg ->
+  both_s emit (fun () -> tok_script name s) (fun dbg ->
       match run_model dbg s with
       | Res.Ok _ -> oracle_expected s
       | r -> show_class_err r)
@@ -399,7 +412,7 @@ let rand_table ?(valid = false) r =
 
 
 (* ---------------- streams ---------------- *)
-let sharp emit name s = both emit (tok_script name s) (sharp_expected s)
+let sharp emit name s = both_s emit (fun () -> tok_script name s) (sharp_expected s)
 
 let () =
   register "c14.factor" ~doc:"factored_data_offset / factored_code_delta through one-instruction tables: every i8 factor x small offsets x 4 instruction kinds, every u8 factor x small deltas, i32/u32 boundaries"
